@@ -63,6 +63,7 @@ def int_strategy(lo: int, hi: int) -> st.SearchStrategy[int]:
 
 _ALPHABETS = [
     "abcXYZ019-_.",
+    "a%s{0}%(x)d\\n$",  # characters that formatting / templating code treats specially
     "åäößΩ",  # 2-byte
     "€中文�",  # 3-byte
     "\U0001f600\U00010348",  # 4-byte
